@@ -49,6 +49,8 @@ pub struct Weights {
     pub hold_signer: u32,
     pub hold_parent_syncs: u32,
     pub check: u32,
+    /// requests that overlap with a running task
+    pub overlap: u32,
     /// maximal single clock advance in seconds
     pub max_advance: u32,
 }
@@ -82,6 +84,7 @@ impl Default for Weights {
             hold_signer: 0,
             hold_parent_syncs: 0,
             check: 5,
+            overlap: 0,
             max_advance: 14 * 86400,
         }
     }
@@ -235,6 +238,20 @@ pub fn op_strategy(w: &Weights, n_cas: usize, cfg: &WorldCfg, edges: &[(u8, u8)]
     add(w.hold_signer, any::<bool>().prop_map(|on| Op::HoldSigner { on }).boxed());
     add(w.hold_parent_syncs, prop_oneof![3 => Just(true), 1 => Just(false)].prop_map(|on| Op::HoldParentSyncs { on }).boxed());
     add(w.check, Just(Op::Check).boxed());
+    if w.overlap > 0 {
+        // the request that overlaps with a running task: any plain request
+        let plain: Vec<(u32, BoxedStrategy<Op>)> = opts
+            .iter()
+            .filter(|(_, _)| true)
+            .cloned()
+            .collect();
+        let inner = proptest::strategy::Union::new_weighted(plain)
+            .prop_filter("plain request", |op| {
+                !matches!(op, Op::Pump { .. } | Op::Quiesce | Op::Check | Op::Restart | Op::Advance { .. } | Op::Snapshot | Op::HoldSigner { .. } | Op::HoldParentSyncs { .. } | Op::CaAdd { .. } | Op::CaDelete { .. } | Op::Attach { .. } | Op::ParentRemove { .. })
+            })
+            .boxed();
+        opts.push((w.overlap, (any::<bool>(), inner).prop_map(|(late, inner)| Op::Overlap { late, inner: Box::new(inner) }).boxed()));
+    }
     proptest::strategy::Union::new_weighted(opts).boxed()
 }
 
